@@ -40,7 +40,7 @@ PROPS = {
                       "std str/String/Path methods listed under assumptions, the model of blake3::Hash::from; for the "
                       "printing side rule R21 (print!/println! with a literal format string -> writes to a ghost stdout "
                       "log threaded through hash_one_input / write_hex_output / write_raw_output) and the assumed "
-                      "contracts of write_raw_output, OutputReader::fill, hex::encode, Display of String/&str",
+                      "contracts of OutputReader::fill, hex::encode, Display of String/&str",
         "units": {"quick": [v("b3sum")], "thorough": [s("C13")]},
         "cone": [r"^crate::(parse_check_line|unescape|hex_half_byte|check_for_invalid_characters|"
                  r"split_untagged_check_line|split_tagged_check_line|filepath_to_string|hash_one_input|write_hex_output|"
@@ -117,7 +117,7 @@ PROPS = {
             "these pieces in this order to the process's stdout",
             "vf_stdout_write appends the literal; vf_stdout_write_disp appends Display of the argument, where Display of "
             "String / str / &T is the string itself (std: `f.pad(s)` with no width / precision under `{}`)",
-            "hash_path (verified in this unit for C12, see evidence/C12.json): a returned OutputReader is positioned at --seek; write_raw_output (trusted): no claim",
+            "hash_path (verified in this unit for C12, see evidence/C12.json): a returned OutputReader is positioned at --seek; write_raw_output (verified for C12): the text log is untouched",
             "blake3::OutputReader is modelled by a stream identity and a position; `fill(buf)` has the contract the xof "
             "unit VERIFIES on the real crate for C03 (requires pos + len <= u64::MAX; buf := the next len stream bytes, "
             "pos += len, same stream); blake3::Hasher is an opaque type (only stored in Args); blake3::BLOCK_LEN == 64",
